@@ -52,6 +52,7 @@ type Case struct {
 	HeaderMode     string   `json:"header_mode"` // "", "set" (grpc.SetHeader) or "send" (grpc.SendHeader) before the reply is returned
 	Later          int      `json:"later"`       // further registrations on the same mux after the service under test (0-2)
 	ReqGzip        bool     `json:"req_gzip"`    // POST: the request body itself travels gzip-compressed (Content-Encoding: gzip)
+	Cached         int      `json:"cached"`      // > 0: the handler returns one long-lived reply object (a cached asset); the request is first served Cached times, each followed by an unrelated larger request on the same mux, before the reply under test is fetched
 }
 
 var (
@@ -116,6 +117,9 @@ func Check(c Case) ([]evid.Violation, info) {
 			panic(err)
 		}
 	}
+	// the handler's own long-lived memory (Cached > 0): the same objects are returned on every call
+	asset := &httpbody.HttpBody{ContentType: c.RawType, Data: append([]byte{}, c.RawData...)}
+	cached := proto.Clone(reply)
 	sd := w.ServiceDesc("un.C4", func(ctx context.Context, fm string, req *dynamicpb.Message) (proto.Message, error) {
 		switch c.HeaderMode {
 		case "set":
@@ -124,7 +128,13 @@ func Check(c Case) ([]evid.Violation, info) {
 			grpc.SendHeader(ctx, metadata.Pairs("x-c4", "1"))
 		}
 		if strings.HasSuffix(fm, "/Raw") {
+			if c.Cached > 0 {
+				return asset, nil
+			}
 			return &httpbody.HttpBody{ContentType: c.RawType, Data: c.RawData}, nil
+		}
+		if c.Cached > 0 {
+			return cached, nil
 		}
 		return proto.Clone(reply), nil
 	}, nil)
@@ -172,7 +182,28 @@ func Check(c Case) ([]evid.Violation, info) {
 	} else {
 		req = drive.Request("GET", "/c4/"+c.Route, "", hdr, nil, 0)
 	}
+	for i := 0; i < c.Cached; i++ {
+		// earlier traffic on the same mux: the same download, then an unrelated request whose body and
+		// reply are larger than anything the download handled
+		warm := req.Clone(req.Context())
+		if c.Verb == "POST" {
+			b, _ := io.ReadAll(req.Body)
+			req.Body, warm.Body = io.NopCloser(bytes.NewReader(b)), io.NopCloser(bytes.NewReader(b))
+		}
+		if r := drive.Serve(mux, warm); r.Panic != nil {
+			return []evid.Violation{evid.V("panic", r.PanicSig(), "panic: %v", r.Panic)}, info{}
+		}
+		big := []byte(`{"fString":"` + strings.Repeat("scribble-", 8+(len(c.RawData)+len(c.Reply))/4) + `"}`)
+		h := http.Header{"Content-Type": {"application/json"}}
+		if r := drive.Serve(mux, drive.Request("POST", "/c4/plain", "", h, bytes.NewReader(big), int64(len(big)))); r.Panic != nil {
+			return []evid.Violation{evid.V("panic", r.PanicSig(), "panic: %v", r.Panic)}, info{}
+		}
+	}
 	res := drive.Serve(mux, req)
+	if c.Cached > 0 && !bytes.Equal(asset.Data, c.RawData) {
+		// (whatever is served from these bytes next is wrong by construction)
+		return []evid.Violation{evid.V("reply", "handler-memory-overwritten", "the bytes of the HttpBody reply the handler keeps in its own memory were overwritten by serving requests (route %s, %d earlier rounds)", c.Route, c.Cached)}, info{status: res.Rec.Code}
+	}
 	acc := ref.ParseAccept(c.Accept)
 	in := info{status: res.Rec.Code}
 	for _, r := range acc.Ranges {
@@ -321,6 +352,7 @@ func genCase(t *rapid.T) Case {
 	c.HeaderMode = rapid.SampledFrom([]string{"", "", "set", "send"}).Draw(t, "headerMode")
 	c.Later = rapid.SampledFrom([]int{0, 0, 1, 2}).Draw(t, "later")
 	c.ReqGzip = c.Verb == "POST" && rapid.IntRange(0, 3).Draw(t, "reqGzip") == 0
+	c.Cached = rapid.SampledFrom([]int{0, 0, 0, 0, 1, 2}).Draw(t, "cached")
 	nl := rapid.SampledFrom([]int{0, 1, 1, 1, 2, 3}).Draw(t, "nAcceptLines")
 	for i := 0; i < nl; i++ {
 		c.Accept = append(c.Accept, genAcceptLine(t))
@@ -373,6 +405,9 @@ func TestProp(t *testing.T) {
 		}
 		if c.Later > 0 {
 			cl = append(cl, "later-registration-on-the-mux")
+		}
+		if c.Cached > 0 {
+			cl = append(cl, "cached-reply-after-earlier-traffic")
 		}
 		nonEmpty := len(c.Reply) > 0 || len(c.RawData) > 0
 		key := ""
